@@ -51,8 +51,10 @@ Same == UNCHANGED vars
 
 \* numbers whose signal has no subscriber in the loop (any more) are read and dropped without a callback
 RECURSIVE SkipEmpty(_, _)
+\* a pipe entry 100 + S stands for "an unknown number of S" (left by a burst in the pipe of a held loop that overflowed)
+SigOf(x) == IF x > 100 THEN x - 100 ELSE x
 SkipEmpty(kk, L) ==
-  IF kk.hp[L] /\ kk.pipe[L] # <<>> /\ kk.subs[L][Head(kk.pipe[L])] = {}
+  IF kk.hp[L] /\ kk.pipe[L] # <<>> /\ kk.subs[L][SigOf(Head(kk.pipe[L]))] = {}
   THEN SkipEmpty([kk EXCEPT !.pipe[L] = Tail(@)], L) ELSE kk
 RECURSIVE SkipAll(_, _)
 SkipAll(kk, Ls) == IF Ls = {} THEN kk ELSE SkipAll(SkipEmpty(kk, Min(Ls)), Ls \ {Min(Ls)})
@@ -67,11 +69,21 @@ PrefixLen(seq, todo, S, seen) ==
 \* pipe: for every number the subscribers of the set copied at that moment are served in the observed order (each runs its
 \* one-shot self-disable and its program); a subscriber of the copy may be left out only if a callback of this very dispatch
 \* unsubscribed it (the statement does not say whether an event disabled by an earlier callback is still served).
+\* callbacks that an overflow entry explains: any number of calls of the (persistent, program-less) subscribers of S
+MarkLen(seq, todo, S) ==
+  LET bad == {i \in 1..Len(seq) : seq[i][2] # S \/ seq[i][1] \notin todo}
+  IN IF bad = {} THEN Len(seq) ELSE Min(bad) - 1
+PlainSubs(kk, L, S) == \A e \in kk.subs[L][S] : ~cfg[e].os /\ cfg[e].prog = <<>>
 RECURSIVE Consume(_, _, _, _)
 Consume(kk, stt, L, seq) ==
   LET k1 == SkipEmpty(kk, L) IN
   IF seq = <<>> THEN [ok |-> TRUE, k |-> k1, st |-> stt]
   ELSE IF ~k1.hp[L] \/ k1.pipe[L] = <<>> THEN [ok |-> FALSE, k |-> k1, st |-> stt]
+  ELSE IF Head(k1.pipe[L]) > 100
+  THEN LET S == Head(k1.pipe[L]) - 100
+           n == MarkLen(seq, k1.subs[L][S], S)
+       IN IF n = 0 \/ ~PlainSubs(k1, L, S) THEN [ok |-> FALSE, k |-> k1, st |-> stt]
+          ELSE Consume([k1 EXCEPT !.pipe[L] = Tail(@)], stt, L, SubSeq(seq, n + 1, Len(seq)))
   ELSE LET S == Head(k1.pipe[L])
            todo == k1.subs[L][S]
            n == PrefixLen(seq, todo, S, {})
@@ -94,7 +106,25 @@ TQuiet ==
   /\ UNCHANGED <<held, cfg, kind, st, op, h, g, fired>>
   /\ SentOK(g.sig, g.sent) /\ Post
 
+\* S raised Ev.n times, one at a time, while some subscribed loop is held: every event of a loop that is not held gets
+\* exactly Ev.n callbacks (one per raise, the same set every time, on its own thread), the pre-existing handler one call per
+\* raise; what the held loops will still read is left open (their pipe may have overflowed): entry 100 + S.
+TBurst ==
+  /\ IsEv("burst") /\ Ev.s \in Sigs /\ NoOps /\ Quiescent /\ k.disp[Ev.s].h = "tbox"
+  /\ LET S == Ev.s
+         P == k.ctx[S].pipes
+     IN /\ \A L \in P : PlainSubs(k, L, S)
+        /\ Ev.steady = TRUE /\ Ev.wrong = 0 /\ Ev.sentbad = 0
+        /\ \A e \in Events : e <= Len(Ev.cnt) =>
+              Ev.cnt[e] = (IF cfg[e].used /\ cfg[e].L \notin held /\ e \in k.subs[cfg[e].L][S] THEN Ev.n ELSE 0)
+        /\ \A S2 \in Sigs : Ev.sent[S2] = (IF S2 = S THEN Ev.n * OldCalls(S) ELSE 0)
+        /\ k' = [k EXCEPT !.pipe = [L \in Loops |-> IF L \in P \cap held THEN Append(k.pipe[L], 100 + S) ELSE k.pipe[L]]]
+  /\ g' = ClearG
+  /\ UNCHANGED <<held, cfg, kind, st, op, h, fired>>
+  /\ Post
+
 TNext ==
+  \/ TBurst
   \/ TReset
   \/ IsEv("begin") /\ Same /\ Post
   \/ IsEv("create") /\ Ev.ev \in Events /\ SCreate(Ev.ev) /\ Post
